@@ -23,25 +23,36 @@ HARNESS = os.path.join(VERIF, "harness")
 NCPU = min(16, os.cpu_count() or 4)
 GUARD = "XSIMD_VERIF"
 
-# name, C++ type, register bytes
+# name, C++ type, register bytes, minimal ISA flags.  Every architecture's translation unit is compiled with exactly the
+# -m flags that architecture needs, not -march=native: (i) the non-FMA kernels then really run without contraction,
+# (ii) g++ 12.2 miscompiles _mm_blendv_epi8 fed by an inverted compare when AVX512VL+BW are enabled (select() on the
+# sse4.1/avx2 architectures came out inverted under -march=native; -O0, clang 14 and the minimal flags all agree with the
+# source), which is a toolchain defect and must not be reported against xsimd.
+_F = ["-mavx512f"]
+_CD = _F + ["-mavx512cd"]
+_DQ = _CD + ["-mavx512dq"]
+_BW = _DQ + ["-mavx512bw"]
+_IFMA = _BW + ["-mavx512ifma"]
+_VBMI = _IFMA + ["-mavx512vbmi"]
+_VBMI2 = _VBMI + ["-mavx512vbmi2"]
 X86_ARCHS = [
-    ("sse2", "xsimd::sse2", 16), ("sse3", "xsimd::sse3", 16), ("ssse3", "xsimd::ssse3", 16),
-    ("sse4_1", "xsimd::sse4_1", 16), ("sse4_2", "xsimd::sse4_2", 16),
-    ("fma3<sse4_2>", "xsimd::fma3<xsimd::sse4_2>", 16),
-    ("avx", "xsimd::avx", 32), ("fma3<avx>", "xsimd::fma3<xsimd::avx>", 32),
-    ("avx2", "xsimd::avx2", 32), ("fma3<avx2>", "xsimd::fma3<xsimd::avx2>", 32),
-    ("avxvnni", "xsimd::avxvnni", 32),
-    ("avx512f", "xsimd::avx512f", 64), ("avx512cd", "xsimd::avx512cd", 64), ("avx512dq", "xsimd::avx512dq", 64),
-    ("avx512bw", "xsimd::avx512bw", 64), ("avx512ifma", "xsimd::avx512ifma", 64),
-    ("avx512vbmi", "xsimd::avx512vbmi", 64), ("avx512vbmi2", "xsimd::avx512vbmi2", 64),
-    ("avx512vnni<avx512bw>", "xsimd::avx512vnni<xsimd::avx512bw>", 64),
-    ("avx512vnni<avx512vbmi2>", "xsimd::avx512vnni<xsimd::avx512vbmi2>", 64),
+    ("sse2", "xsimd::sse2", 16, ["-msse2"]), ("sse3", "xsimd::sse3", 16, ["-msse3"]), ("ssse3", "xsimd::ssse3", 16, ["-mssse3"]),
+    ("sse4_1", "xsimd::sse4_1", 16, ["-msse4.1"]), ("sse4_2", "xsimd::sse4_2", 16, ["-msse4.2"]),
+    ("fma3<sse4_2>", "xsimd::fma3<xsimd::sse4_2>", 16, ["-msse4.2", "-mfma"]),
+    ("avx", "xsimd::avx", 32, ["-mavx"]), ("fma3<avx>", "xsimd::fma3<xsimd::avx>", 32, ["-mavx", "-mfma"]),
+    ("avx2", "xsimd::avx2", 32, ["-mavx2"]), ("fma3<avx2>", "xsimd::fma3<xsimd::avx2>", 32, ["-mavx2", "-mfma"]),
+    ("avxvnni", "xsimd::avxvnni", 32, ["-mavx2", "-mavxvnni"]),
+    ("avx512f", "xsimd::avx512f", 64, _F), ("avx512cd", "xsimd::avx512cd", 64, _CD), ("avx512dq", "xsimd::avx512dq", 64, _DQ),
+    ("avx512bw", "xsimd::avx512bw", 64, _BW), ("avx512ifma", "xsimd::avx512ifma", 64, _IFMA),
+    ("avx512vbmi", "xsimd::avx512vbmi", 64, _VBMI), ("avx512vbmi2", "xsimd::avx512vbmi2", 64, _VBMI2),
+    ("avx512vnni<avx512bw>", "xsimd::avx512vnni<xsimd::avx512bw>", 64, _BW + ["-mavx512vnni"]),
+    ("avx512vnni<avx512vbmi2>", "xsimd::avx512vnni<xsimd::avx512vbmi2>", 64, _VBMI2 + ["-mavx512vnni"]),
 ]
-EMU_ARCHS = [("emulated<128>", "xsimd::emulated<128>", 16), ("emulated<256>", "xsimd::emulated<256>", 32)]
-ARCH_BYTES = {n: b for n, _, b in X86_ARCHS + EMU_ARCHS}
+EMU_ARCHS = [("emulated<128>", "xsimd::emulated<128>", 16, ["-msse2"]), ("emulated<256>", "xsimd::emulated<256>", 32, ["-msse2"])]
+ARCH_BYTES = {n: b for n, _, b, _f in X86_ARCHS + EMU_ARCHS}
 ARCH_BYTES["scalar"] = 0
 
-BASE_FLAGS = ["-std=c++17", "-O2", "-DNDEBUG", "-march=native", "-D%s=1" % GUARD, "-w"]
+BASE_FLAGS = ["-std=c++17", "-O2", "-DNDEBUG", "-D%s=1" % GUARD, "-w"]
 
 
 class InfraError(Exception):
@@ -92,13 +103,13 @@ def build(fam, archset="x86", extra_flags=(), main="main.cpp", with_scalar=True,
     """Build harness binary for one family. archset: 'x86' (20 native architectures [+ scalar]) or 'emu'
     (emulated<128/256>, own binary because XSIMD_WITH_EMULATED changes generic kernels of the others)."""
     flags = BASE_FLAGS + list(extra_flags)
-    archs = list(X86_ARCHS) if archset == "x86" else list(EMU_ARCHS)
+    archs = list(X86_ARCHS) if archset == "x86" else list(EMU_ARCHS) if archset == "emu" else []
     if archset == "emu":
         flags = flags + ["-DXSIMD_WITH_EMULATED=1"]
     hh = hashlib.sha256()
     hh.update(repo_hash().encode())
     hh.update(_hash_tree(HARNESS, (".hpp", ".cpp", ".inc")).encode())
-    hh.update(" ".join(flags + [compiler, fam, archset, str(with_scalar)] + list(extra_srcs)).encode())
+    hh.update(" ".join(flags + [compiler, fam, archset, str(with_scalar)] + list(extra_srcs) + [f for a in archs for f in a[3]]).encode())
     key = hh.hexdigest()[:16]
     parent = os.path.join(BUILD, "h", "%s_%s" % (slug(fam), archset))
     out = os.path.join(parent, key)
@@ -109,9 +120,9 @@ def build(fam, archset="x86", extra_flags=(), main="main.cpp", with_scalar=True,
     os.makedirs(out, exist_ok=True)
     inc = ["-I" + os.path.join(REPO, "include"), "-I" + HARNESS]
     jobs = []
-    for name, cxx, _ in archs:
+    for name, cxx, _, aflags in archs:
         o = os.path.join(out, slug(name) + ".o")
-        jobs.append((o, [compiler] + flags + inc + ['-DVD_FAM="fam_%s.inc"' % fam, "-DVD_ARCH=" + cxx,
+        jobs.append((o, [compiler] + flags + aflags + inc + ['-DVD_FAM="fam_%s.inc"' % fam, "-DVD_ARCH=" + cxx,
                                                    '-DVD_ARCH_NAME="%s"' % name, "-c",
                                                    os.path.join(HARNESS, "arch_tu.cpp"), "-o", o]))
     if with_scalar and archset == "x86":
@@ -291,6 +302,29 @@ def int_lattice(bits, extra=()):
     return sorted({v & m for v in s})
 
 
+def float_lattice(bits, rng=None, nrand=0):
+    """bit patterns of an IEEE binary32/64 special-value lattice (+ optional random bit patterns)"""
+    E, M = (8, 23) if bits == 32 else (11, 52)
+    bias = (1 << (E - 1)) - 1
+    emax = (1 << E) - 1
+    sign = 1 << (bits - 1)
+
+    def mk(e, m):
+        return (e << M) | m
+    pos = {mk(0, 0), mk(0, 1), mk(0, 2), mk(0, (1 << M) - 1), mk(0, 1 << (M - 1)), mk(1, 0), mk(1, 1), mk(2, 0),
+           mk(bias, 0), mk(bias, 1), mk(bias - 1, (1 << M) - 1), mk(bias - 1, 0), mk(bias + 1, 0), mk(bias + 1, 1 << (M - 1)),
+           mk(bias, 1 << (M - 1)), mk(bias + M, 0), mk(bias + M, 1), mk(bias + M + 1, 0), mk(bias + M - 1, (1 << M) - 1),
+           mk(bias + 31, 0), mk(bias + 63, 0), mk(bias - M, 0), mk(bias - 1 - M, 0),
+           mk(emax - 1, (1 << M) - 1), mk(emax - 1, 0), mk(emax - 2, (1 << M) - 1), mk(emax, 0),
+           mk(emax, 1 << (M - 1)), mk(emax, 1), mk(emax, (1 << (M - 1)) | 0x1234), mk(emax, (1 << M) - 1),
+           mk(bias + 1, (1 << (M - 1)) | (1 << (M - 2))), mk(bias - 2, 0x55555555555555 & ((1 << M) - 1)),
+           mk(bias + 3, 0x2AAAAAAAAAAAAA & ((1 << M) - 1))}
+    out = sorted(pos) + sorted(p | sign for p in pos)
+    if rng is not None:
+        out += [rng.getrandbits(bits) for _ in range(nrand)]
+    return out
+
+
 def rows_from(cols, nbytes, shifts=(0,), fill=None):
     """cols: list of tuples (one value per operand). Returns list of tuples of hex rows, lane-packed, the list
     replayed once per shift so that every tuple visits different lane positions."""
@@ -336,7 +370,7 @@ class Ctx:
                         distinct_nontrivial=0, samples=[], model_runs=[], trace_families={})
         self.assumptions = [
             "host CPU executes all 20 x86 architectures sse2..avx512vnni<avx512vbmi2>; NEON/SVE/RVV/WASM kernels are not executable here",
-            "harness compiled with g++ 12 -std=c++17 -O2 -march=native -DNDEBUG -D%s=1 from /repo's working tree (hash %s)" % (GUARD, repo_hash()[:12]),
+            "harness compiled with g++ 12 -std=c++17 -O2 -DNDEBUG and per-architecture minimal -m flags -D%s=1 from /repo's working tree (hash %s)" % (GUARD, repo_hash()[:12]),
             "TLC 1.8.0 and the CommunityModules Json/IOUtils overrides are trusted; the C++ harness only records, TLC judges",
         ]
         self.violations = []   # (description, replay payload lines)
